@@ -72,6 +72,10 @@ func (s *BadSmellListener) EnterImportDeclaration(ctx *ImportDeclarationContext)
 }
 
 func (s *BadSmellListener) EnterClassDeclaration(ctx *ClassDeclarationContext) {
+	if _, topLevel := ctx.GetParent().(*TypeDeclarationContext); !topLevel {
+		// a member or local class: the smells of a file are reported for its top-level type
+		return
+	}
 	currentClzType = "Class"
 	currentClz = ctx.Identifier().GetText()
 
@@ -100,6 +104,10 @@ func getTypeData(typ *TypeTypeContext) string {
 }
 
 func (s *BadSmellListener) EnterInterfaceDeclaration(ctx *InterfaceDeclarationContext) {
+	if _, topLevel := ctx.GetParent().(*TypeDeclarationContext); !topLevel {
+		// a member interface: the smells of a file are reported for its top-level type
+		return
+	}
 	currentClzType = "Interface"
 	currentClz = ctx.Identifier().GetText()
 }
